@@ -152,7 +152,7 @@ Statement == /\ InMethod(st) /\ nprod < MaxProd /\ nstm < MaxStmts
                 \/ /\ "if" \in StmtKinds /\ lastClosed = "if" /\ Depth < MaxDepth + 1
                    /\ \E w \in W : Step([k |-> "else", w |-> w], 1, 0)
                 \/ /\ "while" \in StmtKinds /\ Depth < MaxDepth + 1
-                   /\ \E w \in W : Step([k |-> "while", x |-> <<A0>>, w |-> w], 1, 0)
+                   /\ \E w \in W, pr \in {A0, [t |-> "op", s |-> "LLess", a |-> <<A0, C5>>]} : Step([k |-> "while", x |-> <<pr>>, w |-> w], 1, 0)
              /\ nstm' = nstm + 1 /\ lastClosed' = ""
 Close     == /\ st.stack # <<>>
              /\ Step([k |-> "close"], 0, 0)
@@ -217,11 +217,15 @@ Expected == [ns |-> st.ns, calls |-> [i \in 1..Len(st.calls) |-> [tab |-> st.cal
 RECURSIVE UsesNames(_)
 UsesNames(x) == x.t \in {"call", "ref"} \/ (x.t \in Nested /\ \E i \in 1..Len(x.a) : UsesNames(x.a[i]))
 Strip(ns) == {IF \E i \in 1..Len(o.args) : UsesNames(o.args[i]) THEN [o EXCEPT !.args = <<>>] ELSE o : o \in ns}
+\* the pinned design counts only relocations as progress of a pass (finding D16); the repaired one also merges.
+\* While D16 is open the model follows the pinned design and a program on which it gives up is exempt.
+ImplBug == IF Bug # "" THEN Bug ELSE IF "D16" \in Excluded THEN "GiveUpOnRelocationsOnly" ELSE ""
+GivesUp(r) == "res" \in DOMAIN r /\ r.res = "giveup" /\ "D16" \in Excluded /\ Bug = ""
 Same(r) == "res" \notin DOMAIN r /\ Strip(r.ns) = Strip(Expected.ns) /\ r.calls = Expected.calls
-RefinesAll == IsComplete => Same(I!Parse(toks, Bug))
-Refines == (IsComplete /\ st.trig \cap ImplDeviates = {}) => Same(I!Parse(toks, Bug))
+RefinesAll == IsComplete => Same(I!Parse(toks, ImplBug))
+Refines == (IsComplete /\ st.trig \cap ImplDeviates = {}) => LET r == I!Parse(toks, ImplBug) IN GivesUp(r) \/ Same(r)
 \* leg G: every complete program goes to the Go harness
 \* (np = merge/relocate passes per table that the design model needs: evidence that deep dependency chains are generated)
 EmitProg == (Emit /\ IsComplete) =>
-              CSVWrite("%1$s", <<ToJson([toks |-> toks, np |-> IF ChainItems > 0 THEN I!Parse(toks, "").passes ELSE <<>>])>>, IOEnv.CASES)
+              CSVWrite("%1$s", <<ToJson([toks |-> toks, np |-> IF ChainItems > 0 THEN I!Parse(toks, ImplBug).passes ELSE <<>>])>>, IOEnv.CASES)
 ====
